@@ -116,3 +116,29 @@ PROPS['C03'] = dict(
           'GRID_SEARCH kernel: each suggestion assigns every parameter a member of its domain',
           'radices 1..3 x 1..3 x 0..2, all indices, count 1..3'),
     ])
+
+PROPS['C12'] = dict(
+    level='model_checking',
+    encoded=['IdDeduplicatingTrialLoader.get_newly_completed_trials/get_active_trials/dump/load/clear',
+             '_SerializableDesignerPolicyBase.suggest/_initialize_designer/dump/load',
+             'PartiallySerializableDesignerPolicy._restore_designer', 'DesignerPolicy.suggest',
+             'InRamPolicySupporter.GetTrials/study_descriptor/_UpdateMetadata'],
+    bounds='trial ids 1..3 (thorough 1..4), each absent/ACTIVE/REQUESTED/COMPLETED/INFEASIBLE(/STOPPING), any subset '
+           'incorporated (invariant: only ids completed at the time), policy kept alive / rebuilt+restored / rebuilt '
+           'with state lost / rebuilt-from-scratch DesignerPolicy; one suggest step',
+    outside='more than 4 trial ids; histories in which a deleted id is re-used by a later trial (needs the service: see '
+            'service-level obligations)',
+    obligations=[
+        O('C12.step3_alive', 'harness.c12_cache', 'step3_alive', 200, 600,
+          'policy kept alive: update = (COMPLETED \\ incorporated, all ACTIVE); cache invariant re-established', '3 ids'),
+        O('C12.step3_restored', 'harness.c12_cache', 'step3_restored', 240, 600,
+          'policy rebuilt from the persisted metadata: same', '3 ids'),
+        O('C12.step3_lost', 'harness.c12_cache', 'step3_lost', 200, 600,
+          'policy rebuilt, state lost: fresh designer gets all COMPLETED + all ACTIVE', '3 ids'),
+        O('C12.step3_scratch', 'harness.c12_cache', 'step3_scratch', 120, 600,
+          'DesignerPolicy (rebuilt per request): complete current set of completed and active trials', '3 ids, 6 kinds'),
+    ] + [
+        O('C12.step4_slice%d' % k, 'harness.c12_cache', 'step4', None, 1500,
+          'same with 4 ids and STOPPING trials', '4 ids x 6 kinds, slice %d/8' % k, env={'VERIF_SLICE': str(k)})
+        for k in range(8)
+    ])
